@@ -4,7 +4,9 @@
 //!
 //! * SEQ: for each of 3 worlds (contract bodies that write storage / mint / burn /
 //!   log / ret / retd / rvrt / panic / call each other / fall into an invalid
-//!   instruction; one world with a non-zero gas price and max fee) ALL programs of
+//!   instruction; w0 all defaults; w1 non-default base asset id, max fee 5000 at gas
+//!   price 0; w2 non-default base asset id, chain id, gas price 37, price factor 1000,
+//!   max fee 100,000) ALL programs of
 //!   length <= k (3 quick / 4 thorough) over an 18-letter alphabet (ret, rvrt, log,
 //!   invalid instruction, out-of-bounds store, retd, logd, tr, tro to both variable
 //!   outputs, call A, call B, smo, call A with coins, call of a contract that is not an
@@ -227,6 +229,8 @@ struct WorldInfo {
     debug0: String,
 }
 
+const BASE_W1: AssetId = AssetId::new([0xB5; 32]);
+const BASE_W2: AssetId = AssetId::new([0xC7; 32]);
 const G0_SEQ: u64 = 100_000;
 const G0_LIMIT: u64 = 20_000_000;
 
@@ -244,6 +248,10 @@ fn make_world(name: &'static str, cfg: WorldCfg) -> WorldInfo {
     w.prelude.push(op::movi(R_V1, vars[1] as u32));
     w.prelude.push(op::movi(R_TEN, 10));
     w.prelude.push(op::movi(R_LEN, 8));
+    assert!(
+        outs.iter().any(|o| matches!(o, Output::Change { asset_id, .. } if asset_id == w.params.base_asset_id())),
+        "world must have a change output of the configured base asset"
+    );
     let init_base = w.cfg.base_coin + w.cfg.msg_coin - w.cfg.max_fee_limit;
     let init_x = w.cfg.x_coin;
     let debug0 = format!("{:?}", w.storage);
@@ -283,10 +291,23 @@ fn worlds() -> Vec<WorldInfo> {
             op::call(r::CALL_A, RegId::ZERO, r::ASSET_BASE, RegId::CGAS),
             op::sw(RegId::ZERO, RegId::ONE, 0),
         ],
+        // non-default base asset; gas price 0 with a non-zero max fee: the refund is
+        // the whole max fee
+        balances: vec![(progkit::A, progkit::ASSET_X, 500), (progkit::B, BASE_W1, 300)],
+        max_fee_limit: 5_000,
+        params: {
+            let mut p = ConsensusParameters::standard();
+            p.set_base_asset_id(BASE_W1);
+            p
+        },
         ..WorldCfg::default()
     };
+    // every configured constant the oracle depends on is non-default here: base asset,
+    // chain id, gas price, price factor, max fee
     let mut params = ConsensusParameters::standard();
     params.set_fee_params(FeeParameters::DEFAULT.with_gas_price_factor(1000));
+    params.set_base_asset_id(BASE_W2);
+    params.set_chain_id(fuel_types::ChainId::new(0x5eed));
     let w2 = WorldCfg {
         // A: transfer-out to a variable output from inside a call, storage write, return
         code_a: vec![
@@ -296,6 +317,7 @@ fn worlds() -> Vec<WorldInfo> {
         ],
         // B: one log, then falls into the zero padding of its code (invalid instruction)
         code_b: vec![op::log(RegId::ONE, RegId::ZERO, RegId::ZERO, RegId::ZERO)],
+        balances: vec![(progkit::A, progkit::ASSET_X, 500), (progkit::B, BASE_W2, 300)],
         gas_price: 37,
         max_fee_limit: 100_000,
         params,
@@ -303,8 +325,8 @@ fn worlds() -> Vec<WorldInfo> {
     };
     vec![
         make_world("w0:A=sww,mint,log,ret;B=sww,rvrt", w0),
-        make_world("w1:A=mint,burn,retd;B=sww,callA,sw-oob", w1),
-        make_world("w2:gasprice37/1000,maxfee1e5;A=tro,sww,ret;B=log,<invalid>", w2),
+        make_world("w1:base=b5..,maxfee5000@price0;A=mint,burn,retd;B=sww,callA,sw-oob", w1),
+        make_world("w2:base=c7..,chain=0x5eed,gasprice37/1000,maxfee1e5;A=tro,sww,ret;B=log,<invalid>", w2),
     ]
 }
 
